@@ -345,6 +345,35 @@ def rule_iface(ctx):
                   "on disconnect the layer must reconnect exactly when the flag is set, and clear it (connect calls %d, flag %s)" % (len(conns), show(r["layer"][1].fields.get("reconnect"))), "reconnects iff flagged; flag cleared")
 
 
+    # the network interface's connect() blocks for the whole life of the new connection (both dispatchers loop inside
+    # it) and `disconnected` events are delivered detached: by the time connect() returns, the new connection may have
+    # ended with another stream error that set the flag again.  Environment reaction at the connect call: set the flag.
+    # The flag must survive the rest of the handler, i.e. it has to be cleared BEFORE connecting.
+    holder = {}
+
+    def env_connect(itp, recv, a, k, env, depth, e):
+        holder["layer"][1].fields["reconnect"] = ("c", True)
+        return C_NONE
+    runner = LayerRunner(repo, {})
+    hooks = runner.hooks()
+    hooks["ext:layerInterface.connect"] = env_connect
+    it = Interp(repo, {}, {}, hooks=hooks)
+    it.layer_base = runner.base
+    icls = repo.cls(IFACE, "YowInterfaceLayer")
+    layer = runner.make_layer(it, icls)
+    holder["layer"] = layer
+    layer[1].fields["reconnect"] = ("c", True)
+    raised = None
+    try:
+        it.method_call(layer, "onDisconnected", [("obj", _event_obj(repo))], {}, {"@module": icls.module, "@owner": icls}, 0, None)
+    except _Raise as r_:
+        raised = r_.text
+    ctx.check("C16.iface", raised is None and layer[1].fields.get("reconnect") == ("c", True), where(IFACE, "YowInterfaceLayer.onDisconnected", None),
+              "second stream error during the automatic reconnect",
+              "the reconnect flag set by a stream error on the re-established connection (while connect() is still running) is wiped when connect() returns: the second automatic reconnect never happens - clear the flag before connecting",
+              "flag cleared before connecting: a stream error on the new connection is not lost")
+
+
 def rule_reset(ctx):
     repo = ctx.repo
     net = repo.cls(NET, "YowNetworkLayer")
@@ -506,7 +535,7 @@ def rule_ping(ctx, tier):
 def run(ctx):
     ctx.rule("C16.inv", "extracted connection automaton: exhaustive exploration + transformer facts", floor=12)
     ctx.rule("C16.auth", "auth layer reactions", floor=5)
-    ctx.rule("C16.iface", "stream error / reconnect handling in the interface layer", floor=14)
+    ctx.rule("C16.iface", "stream error / reconnect handling in the interface layer", floor=15)
     ctx.rule("C16.reset", "transport and session state reset on disconnected", floor=4)
     ctx.rule("C16.ping", "keep-alive bookkeeping", floor=5)
     ctx.assume("environment contract of the dispatcher: after connect() it reports connected or an error; a live connection may close or fail at any time; after disconnect() it reports disconnected; a connect request arrives only while no connection exists; a dispatcher may report the same close twice")
